@@ -1119,43 +1119,61 @@ def pad_reuse(array, pad_width, mode, **kwargs):
                 "unsupported value for reflect_type, must be one of (`even`, `odd`)"
             )
 
-    result = np.empty(array.ndim * (3,), dtype=object)
-    for idx in np.ndindex(result.shape):
-        select = []
-        orient = []
-        for i, s, pw in zip(idx, array.shape, pad_width):
-            if mode == "wrap":
-                pw = pw[::-1]
-
-            if i < 1:
-                if mode == "reflect":
-                    select.append(slice(1, pw[0] + 1, None))
-                else:
-                    select.append(slice(None, pw[0], None))
-            elif i > 1:
-                if mode == "reflect":
-                    select.append(slice(s - pw[1] - 1, s - 1, None))
-                else:
-                    select.append(slice(s - pw[1], None, None))
-            else:
-                select.append(slice(None))
-
-            if i != 1 and mode in ["reflect", "symmetric"]:
-                orient.append(slice(None, None, -1))
-            else:
-                orient.append(slice(None))
-
-        select = tuple(select)
-        orient = tuple(orient)
-
-        if mode == "wrap":
-            idx = tuple(2 - i for i in idx)
-
-        result[idx] = array[select][orient]
-
-    result = block(result.tolist())
+    # Like NumPy, pad one axis after the other; along an axis the padding
+    # continues the array periodically, so a pad wider than the axis is made
+    # of several (possibly reversed) copies of it.
+    result = array
+    for d, (before, after) in enumerate(pad_width):
+        if before == 0 and after == 0:
+            continue
+        if result.shape[d] == 0:
+            raise ValueError(
+                f"can't extend empty axis {d} using modes other than 'constant' or 'empty'"
+            )
+        left = _pad_reuse_pieces(result, d, before, mode, "before")
+        right = _pad_reuse_pieces(result, d, after, mode, "after")
+        result = concatenate(left + [result] + right, axis=d)
 
     return result
+
+
+def _pad_reuse_pieces(array, axis, width, mode, side):
+    """Slices of ``array`` that make up ``width`` elements of periodic padding
+    on one side of ``axis``, ordered along the axis."""
+    n = array.shape[axis]
+
+    def take(sl):
+        return array[(slice(None),) * axis + (sl,)]
+
+    if mode == "wrap":
+        period, forward, backward = n, take(slice(None)), None
+    elif mode == "symmetric":
+        period, forward, backward = n, take(slice(None)), take(slice(None, None, -1))
+    elif n == 1:  # reflect: nothing but the edge to mirror at
+        period, forward, backward = 1, take(slice(None)), take(slice(None))
+    else:  # reflect: the edge element is not repeated
+        period = n - 1
+        if side == "before":
+            forward, backward = take(slice(None, -1)), take(slice(None, 0, -1))
+        else:
+            forward, backward = take(slice(1, None)), take(slice(-2, None, -1))
+
+    # pieces listed going away from the array
+    pieces = []
+    remaining = width
+    i = 0
+    while remaining > 0:
+        piece = forward if (mode == "wrap" or i % 2 == 1) else backward
+        if remaining < period:
+            # the part of the piece nearest to the array
+            if side == "before":
+                piece = piece[(slice(None),) * axis + (slice(period - remaining, None),)]
+            else:
+                piece = piece[(slice(None),) * axis + (slice(None, remaining),)]
+        pieces.append(piece)
+        remaining -= period
+        i += 1
+    return pieces[::-1] if side == "before" else pieces
 
 
 def pad_stats(array, pad_width, mode, stat_length):
